@@ -30,6 +30,7 @@ type Writer struct {
 	seen     map[string]struct{}
 	Distinct int
 	lastReq  string
+	kinds    map[string]int
 }
 
 func NewWriter(dir string) *Writer {
@@ -72,8 +73,28 @@ func (w *Writer) Case(class string, nontrivial bool, req string, reply string) {
 }
 
 func (w *Writer) Fail(format string, args ...any) {
-	if len(w.Monitor) < 200 {
-		msg := fmt.Sprintf(format, args...)
+	// at most 60 reports are kept per kind of failure (the text before the replay, digits
+	// ignored), so that many reports of one kind - a known finding, say - never crowd out a
+	// report of another kind
+	msg := fmt.Sprintf(format, args...)
+	kind := msg
+	if i := strings.Index(kind, "[replay: "); i >= 0 {
+		kind = kind[:i]
+	}
+	kind = strings.Map(func(r rune) rune {
+		if r >= '0' && r <= '9' {
+			return -1
+		}
+		return r
+	}, kind)
+	if len(kind) > 80 {
+		kind = kind[:80]
+	}
+	if w.kinds == nil {
+		w.kinds = map[string]int{}
+	}
+	if w.kinds[kind] < 60 && len(w.Monitor) < 3000 {
+		w.kinds[kind]++
 		if !strings.Contains(msg, "[replay: ") {
 			msg += " [replay: " + w.lastReq + "]"
 		}
